@@ -205,3 +205,29 @@ func VerifC18Floats() {
 	nd.Assert(e3 == nil && o3 == o1, "float-drop-same-output")
 	nd.Reach("C18.floats")
 }
+
+// VerifC18Nested: two containers of the same outer Go type whose elements carry the same
+// Liquid values in different representations compare, match and are found alike.
+func VerifC18Nested() {
+	x, y := nd.IntIn(0, 9), nd.IntIn(0, 9)
+	var a, b any
+	switch nd.Choice(6) {
+	case 0:
+		a, b = [2]any{x, y}, [2]any{c18Drop{x}, y}
+	case 1:
+		a, b = [2]any{x, y}, [2]any{int8(x), uint16(y)}
+	case 2:
+		a, b = []any{x, y}, []any{c18Drop{x}, int64(y)}
+	case 3:
+		a, b = [2]any{x, "s"}, [2]any{float64(x), c18Drop{"s"}}
+	case 4:
+		a, b = [1]any{[]any{x}}, [1]any{[]any{int32(x)}}
+	case 5:
+		a, b = [2]int{x, y}, [2]any{x, y}
+	}
+	t := "{% if a == b %}eq{% else %}ne{% endif %}|{% case a %}{% when b %}hit{% else %}miss{% endcase %}|{% if list contains b %}in{% else %}out{% endif %}|{% if a != b %}ne{% endif %}"
+	out, err := vRender(t, Bindings{"a": a, "b": b, "list": []any{"z", a}})
+	nd.Assert(err == nil, "nested-no-error")
+	nd.Assert(out == "eq|hit|in|", "nested-representations-compare-equal")
+	nd.Reach("C18.nested")
+}
